@@ -147,14 +147,14 @@ Proof.
       intros c. rewrite Hc. cbn [existsb in_class_item]. unfold upd.
       destruct (c =? x) eqn:Ecx; cbn [orb]; [destruct (existsb (in_class_item c) items || trail && (c =? 45)); reflexivity|reflexivity].
     + (* range *)
-      cbn in Hit. destruct Hit as (Hlo & Hhi & H255 & Hle).
+      cbn in Hit. destruct Hit as (Hlo & Hhi & Hle).
       cbn [fill_loop].
       destruct (lo =? 45) eqn:E1; [lia|].
       cbn [N.eqb Pos.eqb]. cbv iota.
       assert (Hmid : ((0 <? S (length pre)) && (S (length pre) <? length (pre ++ lo :: 45%N :: hi :: flat_map render_class_item items ++ (if trail then [45%N] else [])) - 1))%nat = true).
       { rewrite !app_length. cbn [length]. lia. }
       rewrite Hmid.
-      destruct (hi =? 45) eqn:E2; [lia|]. destruct (hi =? 255) eqn:E3; [lia|].
+      destruct (hi =? 45) eqn:E2; [lia|].
       replace (S (S (length pre)) - 2)%nat with (length pre) by lia.
       rewrite nth_app_here.
       destruct (IH trail (pre ++ [lo; 45; hi]) (upd_range (upd t lo listed) lo hi listed) listed
@@ -248,7 +248,64 @@ Proof.
   exists tb. split; [|exact Hc]. rewrite new_string_extractor_bracket. fold body in Htb. rewrite Htb. reflexivity.
 Qed.
 
-Lemma new_extractor_star : forall head l r maxr,
+Lemma new_extractor_star : forall (head : bool) (l r : bytes) maxr, (if head then r else l) <> [] ->
   new_string_extractor_simple head (pat_escape l ++ 42 :: pat_escape r) maxr =
   Ok {| ex_head := head; ex_left := l; ex_right := r; ex_max := maxr; ex_table := None |}.
-Proof. intros. unfold new_string_extractor_simple. rewrite split_pattern_star. reflexivity. Qed.
+Proof.
+  intros head l r maxr H. unfold new_string_extractor_simple. rewrite split_pattern_star. cbn [obind].
+  unfold new_string_extractor. destruct (if head then r else l); [congruence|reflexivity].
+Qed.
+
+(* ... and a bare "*" without the boundary on its far side is rejected *)
+Lemma new_extractor_star_rejected : forall (head : bool) (l r : bytes) maxr, (if head then r else l) = [] ->
+  new_string_extractor_simple head (pat_escape l ++ 42 :: pat_escape r) maxr = Err e_star_boundary.
+Proof.
+  intros head l r maxr H. unfold new_string_extractor_simple. rewrite split_pattern_star. cbn [obind].
+  unfold new_string_extractor. rewrite H. reflexivity.
+Qed.
+
+(* what every successfully compiled extractor satisfies: the table or the far boundary is there *)
+Lemma new_string_extractor_wf : forall head l w r maxr ex,
+  new_string_extractor head l w r maxr = Ok ex ->
+  ex_max ex = maxr /\
+  (if ex_head ex then ex_right ex <> [] \/ ex_table ex <> None else ex_left ex <> [] \/ ex_table ex <> None).
+Proof.
+  intros head l w r maxr ex H. unfold new_string_extractor in H.
+  assert (Hgen : forall o : outcome table,
+            (t <-- o ;; Ok {| ex_head := head; ex_left := l; ex_right := r; ex_max := maxr; ex_table := Some t |}) = Ok ex ->
+            ex_max ex = maxr /\
+            (if ex_head ex then ex_right ex <> [] \/ ex_table ex <> None else ex_left ex <> [] \/ ex_table ex <> None)).
+  { intros o Ho. destruct o as [t| |]; try discriminate. cbn in Ho. inversion Ho; subst. cbn.
+    split; [reflexivity|]. destruct head; right; discriminate. }
+  destruct w as [|c w']; [discriminate|].
+  destruct w' as [|c' w''].
+  - destruct (c =? 42) eqn:Ec.
+    + apply N.eqb_eq in Ec. subst c.
+      destruct (match (if head then r else l) with [] => true | _ :: _ => false end) eqn:Eb; [discriminate|].
+      inversion H; subst. cbn. split; [reflexivity|].
+      destruct head; left; intro Hc; rewrite Hc in Eb; discriminate.
+    + assert (Hne : c <> 42) by lia.
+      assert (H' : (if ((length [c] <? 2)%nat || negb (hd 0 [c] =? 91) || negb (last [c] 0 =? 93))%bool
+                    then Err e_bad_wildcard
+                    else t <-- fill_valid_chars [c] ;;
+                         Ok {| ex_head := head; ex_left := l; ex_right := r; ex_max := maxr; ex_table := Some t |}) = Ok ex).
+      { destruct c as [|p]; [exact H|]. do 6 (destruct p as [p|p|]; try exact H). exfalso; apply Hne; reflexivity. }
+      cbn in H'. discriminate.
+  - assert (H' : (if ((length (c :: c' :: w'') <? 2)%nat || negb (hd 0 (c :: c' :: w'') =? 91) || negb (last (c :: c' :: w'') 0 =? 93))%bool
+                  then Err e_bad_wildcard
+                  else t <-- fill_valid_chars (c :: c' :: w'') ;;
+                       Ok {| ex_head := head; ex_left := l; ex_right := r; ex_max := maxr; ex_table := Some t |}) = Ok ex).
+    { destruct c as [|p]; [exact H|]. do 6 (destruct p as [p|p|]; try exact H). }
+    destruct ((length (c :: c' :: w'') <? 2)%nat || negb (hd 0 (c :: c' :: w'') =? 91) || negb (last (c :: c' :: w'') 0 =? 93))%bool; [discriminate|].
+    apply Hgen in H'. exact H'.
+Qed.
+
+Lemma new_string_extractor_simple_wf : forall head pat maxr ex,
+  new_string_extractor_simple head pat maxr = Ok ex ->
+  ex_max ex = maxr /\
+  (if ex_head ex then ex_right ex <> [] \/ ex_table ex <> None else ex_left ex <> [] \/ ex_table ex <> None).
+Proof.
+  intros head pat maxr ex H. unfold new_string_extractor_simple in H.
+  destruct (split_pattern pat) as [[[l w] r]| |]; try discriminate. cbn [obind] in H.
+  eapply new_string_extractor_wf. eassumption.
+Qed.
